@@ -13,18 +13,25 @@ void vh_sink_ptr(const char *s);      /* told about every string handed over by 
 #else
 #define PTR(s) ((void) 0)
 #endif
-DString *d_string_new(const char *s) { DString *d = malloc(sizeof(DString)); if (d) { d->str = malloc(4); if (d->str) d->str[0] = 0; d->currentStringLength = 0; d->currentStringBufferSize = 4; } if (s) for (size_t i = 0; s[i]; i++) vh_sink(s[i]); return d; }
+/* DS_SINK_TARGET: only what is appended to *vh_sink_target is streamed (temporary strings of the code under test are ignored) */
+#ifdef DS_SINK_TARGET
+extern DString *vh_sink_target;
+#define ON(d) ((d) == vh_sink_target)
+#else
+#define ON(d) 1
+#endif
+DString *d_string_new(const char *s) { DString *d = malloc(sizeof(DString)); if (d) { d->str = malloc(4); if (d->str) d->str[0] = 0; d->currentStringLength = 0; d->currentStringBufferSize = 4; } if (s && ON(d)) for (size_t i = 0; s[i]; i++) vh_sink(s[i]); return d; }
 char *d_string_free(DString *d, bool f) { if (!d) return 0; char *r = d->str; if (f) { free(d->str); r = 0; } free(d); return r; }
-void d_string_append_c(DString *d, char c) { if (d && c) vh_sink(c); }
-void d_string_append(DString *d, const char *s) { if (d && s) PTR(s); if (d && s) for (size_t i = 0; s[i]; i++) vh_sink(s[i]); }
-void d_string_append_c_array(DString *d, const char *s, size_t n) { if (d && s) { PTR(s); if (n == (size_t) -1) d_string_append(d, s); else for (size_t i = 0; i < n; i++) vh_sink(s[i]); } }
+void d_string_append_c(DString *d, char c) { if (d && c && ON(d)) vh_sink(c); }
+void d_string_append(DString *d, const char *s) { if (!ON(d)) return; if (d && s) PTR(s); if (d && s) for (size_t i = 0; s[i]; i++) vh_sink(s[i]); }
+void d_string_append_c_array(DString *d, const char *s, size_t n) { if (!ON(d)) return; if (d && s) { PTR(s); if (n == (size_t) -1) d_string_append(d, s); else for (size_t i = 0; i < n; i++) vh_sink(s[i]); } }
 void d_string_insert(DString *d, size_t pos, const char *s) { vh_sink_unsupported(); }
 void d_string_prepend(DString *d, const char *s) { vh_sink_unsupported(); }
 void d_string_insert_c(DString *d, size_t pos, char c) { vh_sink_unsupported(); }
 void d_string_erase(DString *d, size_t pos, size_t len) { vh_sink_unsupported(); }
 void d_string_insert_printf(DString *d, size_t pos, const char *format, ...) { vh_sink_unsupported(); }
 void d_string_append_printf(DString *d, const char *f, ...) {
-	if (!d || !f) return;
+	if (!d || !f || !ON(d)) return;
 	va_list ap; va_start(ap, f);
 	for (size_t i = 0; f[i]; i++) {
 		if (f[i] != '%') { vh_sink(f[i]); continue; }
